@@ -7,6 +7,6 @@
 (assert
  (= (- fields!2 (localoffset fields!2 fold!3)) mtime!1))
 (assert
- (let (($x10 (= (- fields!2 (localoffset fields!2 fold!3)) mtime!1)))
-(not $x10)))
+ (let (($x12 (= (- fields!2 (localoffset fields!2 fold!3)) mtime!1)))
+(not $x12)))
 (check-sat)
